@@ -11,6 +11,7 @@ import PygProofs.Lemmas.WrapLemmas
 import PygProofs.Lemmas.CacheLemmas
 import PygProofs.Lemmas.CacheKeyLemmas
 import PygModel.WrapHist
+import PygProofs.Lemmas.WrapHistSharp
 import PygModel.Try
 import PygProofs.Lemmas.WrapHistLemmas
 
@@ -127,7 +128,7 @@ theorem kwargs_support_not_transparent_varkw :
 
 /-- **try_value returns its fallback exactly when f raises**, and f's result otherwise -/
 theorem try_fallback_iff (s : Sig) (body : PDict → Res Val) (p : PDict) (rest : List (Cls × PDict)) (c : Call)
-    (hp : p.lookup "return_value" ≠ some (.cell (.bool false))) :
+    (hp : returnsValue p = true) :
     (∀ v, evalChain s body rest c = .ok v → evalChain s body ((.tryValue, p) :: rest) c = .ok v) ∧
     (∀ e, evalChain s body rest c = .error e →
       evalChain s body ((.tryValue, p) :: rest) c = .ok ((p.lookup "value").getD (.cell .none))) := by
@@ -189,12 +190,12 @@ theorem try_presets_spec {A E : Type} (f : A → Except E Val) (a : A) :
 theorem evalChain_tryValue_eq (s : Sig) (body : PDict → Res Val) (p : PDict) (rest : List (Cls × PDict)) (c : Call) :
     evalChain s body ((.tryValue, p) :: rest) c =
       tryValueCode (evalChain s body rest) (repeatOf p)
-        (decide (p.lookup "return_value" ≠ some (.cell (.bool false)))) ((p.lookup "value").getD (.cell .none)) c := by
-  by_cases hp : p.lookup "return_value" = some (.cell (.bool false))
-  · simp only [hp, ne_eq, not_true_eq_false, decide_false, try_value_no_return_spec, evalChain]
+        (returnsValue p) ((p.lookup "value").getD (.cell .none)) c := by
+  cases hp : returnsValue p
+  · simp only [try_value_no_return_spec, evalChain, hp]
     cases evalChain s body rest c <;> simp
-  · simp only [hp, ne_eq, not_false_eq_true, decide_true, try_value_spec, evalChain, if_false]
-    cases evalChain s body rest c <;> rfl
+  · simp only [try_value_spec, evalChain, hp]
+    cases evalChain s body rest c <;> simp [resultOr]
 
 /-- … and so is the `try_back` layer -/
 theorem evalChain_tryBack_eq (s : Sig) (body : PDict → Res Val) (p : PDict) (rest : List (Cls × PDict)) (c : Call) :
@@ -204,10 +205,10 @@ theorem evalChain_tryBack_eq (s : Sig) (body : PDict → Res Val) (p : PDict) (r
 
 /-- **try_value in a stack** (`return_value` not False): what the stack below returns, else the fallback -/
 theorem try_value_stack_spec (s : Sig) (body : PDict → Res Val) (p : PDict) (rest : List (Cls × PDict)) (c : Call)
-    (hp : p.lookup "return_value" ≠ some (.cell (.bool false))) :
+    (hp : returnsValue p = true) :
     evalChain s body ((.tryValue, p) :: rest) c =
       .ok (resultOr (evalChain s body rest c) ((p.lookup "value").getD (.cell .none))) := by
-  rw [evalChain_tryValue_eq, decide_eq_true hp, try_value_spec]
+  rw [evalChain_tryValue_eq, hp, try_value_spec]
 
 /-- non-vacuity: `try_zero(f)` on a raising and on a returning call, `repeat = 2` -/
 example :
@@ -937,5 +938,425 @@ example :
       callKey { args := [], kw := [("b", .cell (.int 2)), ("a", .cell (.int 1))] } ∧
     callKey { args := [.cell (.int 1)], kw := [] } ≠ callKey { args := [], kw := [("a", .cell (.int 1))] } := by
   decide +kernel
+
+/-! ## round h6: every exclusion only for the decorator that causes it; `kwargs_support` inside a stack -/
+
+/-- **Transparency of every stack, each exclusion only for the decorator that causes it.**  A valid call returns through
+the stack what `f` returns; an undeclared keyword is excluded only when `kwargs_support` is in the stack (K1), a keyword
+called `axis` only when `loops` is (K4), an int ndarray argument only when `pd2np` is (K6).  So `cache(f)(np.array([1,2]))`,
+`try_value(cache(f))(1, axis=5)`, `try_back(f)(1, zz=2)` for `f(a, **kw)` are covered.  Subsumes `stack_transparent` and
+`stack_transparent_without_kwargs_support`. -/
+theorem stack_transparent_sharp (s : Sig) (body : PDict → Res Val) :
+    ∀ (chain : List (Cls × PDict)) (c : Call) (v : Val),
+      (Cls.kwargsSupport ∈ classes chain → ∀ p ∈ c.kw, p.1 ∈ s.params) →
+      (Cls.loops ∈ classes chain → ∀ p ∈ c.kw, p.1 ≠ "axis") →
+      (Cls.pd2np ∈ classes chain → c.hasIntArr = false) →
+      applyFn s body c = .ok v → evalChain s body chain c = .ok v
+  | [], c, v, _, _, _, h => by simpa [evalChain] using h
+  | (cls, p) :: rest, c, v, hd, hax, hia, h => by
+      have hd' : Cls.kwargsSupport ∈ classes rest → ∀ p ∈ c.kw, p.1 ∈ s.params :=
+        fun hm => hd (by simp [classes] at hm ⊢; exact Or.inr hm)
+      have hax' : Cls.loops ∈ classes rest → ∀ p ∈ c.kw, p.1 ≠ "axis" :=
+        fun hm => hax (by simp [classes] at hm ⊢; exact Or.inr hm)
+      have hia' : Cls.pd2np ∈ classes rest → c.hasIntArr = false :=
+        fun hm => hia (by simp [classes] at hm ⊢; exact Or.inr hm)
+      have ih := stack_transparent_sharp s body rest c v hd' hax' hia' h
+      cases cls with
+      | tryValue => simp [evalChain, ih]
+      | tryBack => simp [evalChain, ih]
+      | cache => simp [evalChain, ih]
+      | kwargsSupport =>
+        have hdd := hd (by simp [classes])
+        have hk : kwFilter s c = c := by
+          cases c with
+          | mk args kw =>
+            simp only [kwFilter, Call.mk.injEq, true_and]
+            apply List.filter_eq_self.2
+            intro q hq
+            simpa using hdd q hq
+        simp [evalChain, hk, ih]
+      | loops =>
+        have haa := hax (by simp [classes])
+        have hl : evalChain s body rest (loopsCall s c) = .ok v :=
+          stack_transparent_sharp s body rest (loopsCall s c) v
+            (fun hm q hq => hd' hm q (loopsCall_kw_sub s c q hq))
+            (fun hm q hq => hax' hm q (loopsCall_kw_sub s c q hq))
+            (fun hm => loopsCall_hasIntArr s c (hia' hm))
+            (by simpa [applyFn, loopsCall_bind s c haa] using h)
+        simp [evalChain, hl]
+      | pd2np =>
+        have hii := hia (by simp [classes])
+        have hp : pd2npCall (excOf p) c = c := pd2npCall_of_no _ c hii
+        simp [evalChain, hp, ih]
+
+/-- … and a stack without `try_*` raises what `f` raises, under the same per-decorator conditions (a function with `**kw`
+called with extra keywords through `cache` / `loops` / `pd2np` included) -/
+theorem stack_transparent_raise_sharp (s : Sig) (body : PDict → Res Val) :
+    ∀ (chain : List (Cls × PDict)) (c : Call),
+      (Cls.kwargsSupport ∈ classes chain → ∀ p ∈ c.kw, p.1 ∈ s.params) →
+      (Cls.loops ∈ classes chain → ∀ p ∈ c.kw, p.1 ≠ "axis") →
+      (Cls.pd2np ∈ classes chain → c.hasIntArr = false) →
+      (∀ w ∈ chain, w.1 ≠ .tryValue ∧ w.1 ≠ .tryBack) → evalChain s body chain c = applyFn s body c
+  | [], c, _, _, _, _ => by simp [evalChain]
+  | (cls, p) :: rest, c, hd, hax, hia, hc => by
+      have hr : ∀ w ∈ rest, w.1 ≠ .tryValue ∧ w.1 ≠ .tryBack := fun w hw => hc w (by simp [hw])
+      have hd' : Cls.kwargsSupport ∈ classes rest → ∀ p ∈ c.kw, p.1 ∈ s.params :=
+        fun hm => hd (by simp [classes] at hm ⊢; exact Or.inr hm)
+      have hax' : Cls.loops ∈ classes rest → ∀ p ∈ c.kw, p.1 ≠ "axis" :=
+        fun hm => hax (by simp [classes] at hm ⊢; exact Or.inr hm)
+      have hia' : Cls.pd2np ∈ classes rest → c.hasIntArr = false :=
+        fun hm => hia (by simp [classes] at hm ⊢; exact Or.inr hm)
+      have ih := stack_transparent_raise_sharp s body rest c hd' hax' hia' hr
+      have hne := hc (cls, p) (by simp)
+      cases cls with
+      | tryValue => exact absurd rfl hne.1
+      | tryBack => exact absurd rfl hne.2
+      | cache => simp [evalChain, ih]
+      | kwargsSupport =>
+        have hdd := hd (by simp [classes])
+        have hk : kwFilter s c = c := by
+          cases c with
+          | mk args kw =>
+            simp only [kwFilter, Call.mk.injEq, true_and]
+            apply List.filter_eq_self.2
+            intro q hq
+            simpa using hdd q hq
+        simp [evalChain, hk, ih]
+      | loops =>
+        have haa := hax (by simp [classes])
+        have hl : evalChain s body rest (loopsCall s c) = applyFn s body c := by
+          rw [stack_transparent_raise_sharp s body rest (loopsCall s c)
+            (fun hm q hq => hd' hm q (loopsCall_kw_sub s c q hq))
+            (fun hm q hq => hax' hm q (loopsCall_kw_sub s c q hq))
+            (fun hm => loopsCall_hasIntArr s c (hia' hm)) hr]
+          simp [applyFn, loopsCall_bind s c haa]
+        simp [evalChain, hl]
+      | pd2np =>
+        have hii := hia (by simp [classes])
+        have hp : pd2npCall (excOf p) c = c := pd2npCall_of_no _ c hii
+        simp [evalChain, hp, ih]
+
+/-- **`kwargs_support` anywhere in a stack** (clause "kwargs_support makes a function without `**kwargs` ignore exactly the
+keywords it does not declare", at the level of results and not only for the one-layer stack of `kwargs_support_result`): a
+valid call of `f` PLUS any undeclared keywords `junk`, through ANY stack that contains `kwargs_support`, returns what `f`
+returns on the valid call.  `loops` in the stack: no keyword called `axis` (K4); `pd2np` in the stack: no int ndarray (K6).
+`try_value(kwargs_support(f))(1, zz=2)`, `kwargs_support(cache(f))(1, zz=2)`, `cache(kwargs_support(f))(…)` are instances. -/
+theorem kwargs_support_in_stack (s : Sig) (hv : s.varkw = none) (body : PDict → Res Val) (junk : PDict)
+    (hj : ∀ p ∈ junk, p.1 ∉ s.params) :
+    ∀ (chain : List (Cls × PDict)) (c : Call) (v : Val),
+      Cls.kwargsSupport ∈ classes chain →
+      (Cls.loops ∈ classes chain → ∀ p ∈ c.kw ++ junk, p.1 ≠ "axis") →
+      (Cls.pd2np ∈ classes chain → ({ c with kw := c.kw ++ junk } : Call).hasIntArr = false) →
+      applyFn s body c = .ok v → evalChain s body chain { c with kw := c.kw ++ junk } = .ok v
+  | [], _, _, hk, _, _, _ => by simp [classes] at hk
+  | (cls, p) :: rest, c, v, hk, hax, hia, h => by
+      have hax' : Cls.loops ∈ classes rest → ∀ p ∈ c.kw ++ junk, p.1 ≠ "axis" :=
+        fun hm => hax (by simp [classes] at hm ⊢; exact Or.inr hm)
+      have hia' : Cls.pd2np ∈ classes rest → ({ c with kw := c.kw ++ junk } : Call).hasIntArr = false :=
+        fun hm => hia (by simp [classes] at hm ⊢; exact Or.inr hm)
+      obtain ⟨b, hb⟩ : ∃ b, bindRef s c = .ok b := by
+        cases hb : bindRef s c with
+        | error e => simp [applyFn, hb] at h
+        | ok b => exact ⟨b, rfl⟩
+      have hdecl : ∀ p ∈ c.kw, p.1 ∈ s.params := by
+        have := kwargs_support_transparent s hv c b hb
+        intro p hp
+        rw [← this] at hp
+        simp only [kwFilter, List.mem_filter] at hp
+        simpa using hp.2
+      cases cls with
+      | kwargsSupport =>
+        simp only [evalChain]
+        rw [(kwargs_support_ignores_exactly s c junk hj).1, kwargs_support_transparent s hv c b hb]
+        exact stack_transparent_sharp s body rest c v (fun _ => hdecl)
+          (fun hm q hq => hax' hm q (by simp [hq]))
+          (fun hm => hasIntArr_append_left c junk (hia' hm)) h
+      | tryValue =>
+        have hk' : Cls.kwargsSupport ∈ classes rest := by simpa [classes] using hk
+        simp [evalChain, kwargs_support_in_stack s hv body junk hj rest c v hk' hax' hia' h]
+      | tryBack =>
+        have hk' : Cls.kwargsSupport ∈ classes rest := by simpa [classes] using hk
+        simp [evalChain, kwargs_support_in_stack s hv body junk hj rest c v hk' hax' hia' h]
+      | cache =>
+        have hk' : Cls.kwargsSupport ∈ classes rest := by simpa [classes] using hk
+        simp [evalChain, kwargs_support_in_stack s hv body junk hj rest c v hk' hax' hia' h]
+      | pd2np =>
+        have hk' : Cls.kwargsSupport ∈ classes rest := by simpa [classes] using hk
+        have hii := hia (by simp [classes])
+        simp only [evalChain, pd2npCall_of_no _ _ hii]
+        exact kwargs_support_in_stack s hv body junk hj rest c v hk' hax' hia' h
+      | loops =>
+        have hk' : Cls.kwargsSupport ∈ classes rest := by simpa [classes] using hk
+        have haa := hax (by simp [classes])
+        have haxk : ∀ p ∈ c.kw, p.1 ≠ "axis" := fun p hp => haa p (by simp [hp])
+        simp only [evalChain]
+        rw [loopsCall_append s c junk hj haa]
+        have := kwargs_support_in_stack s hv body junk hj rest (loopsCall s c) v hk'
+          (fun hm q hq => by
+            rcases List.mem_append.1 hq with hq | hq
+            · exact haa q (by simp [loopsCall_kw_sub s c q hq])
+            · exact haa q (by simp [hq]))
+          (fun hm => by
+            have := loopsCall_hasIntArr s _ (hia' hm)
+            rw [loopsCall_append s c junk hj haa] at this
+            exact this)
+          (by simpa [applyFn, loopsCall_bind s c haxk] using h)
+        exact this
+
+
+/-- non-vacuity: `try_value(kwargs_support(cache(f)))(1, b=5, zz=9)` for `f(a, b=2)`; and the converse witness: the same stack
+WITHOUT `kwargs_support` raises python's TypeError (here turned into the fallback by `try_value`; bare: `.error .type`) -/
+example :
+    let s : Sig := { params := ["a", "b"], defaults := [.cell (.int 2)], varargs := none, varkw := none }
+    let c : Call := { args := [.cell (.int 1)], kw := [("b", .cell (.int 5)), ("zz", .cell (.int 9))] }
+    evalChain s recBody [(.tryValue, []), (.kwargsSupport, []), (.cache, [])] c =
+      .ok (.dict [("a", .cell (.int 1)), ("b", .cell (.int 5))]) ∧
+    evalChain s recBody [(.cache, []), (.loops, [])] c = .error .type := by
+  decide
+
+/-- non-vacuity of the sharp form: an int ndarray through `try_value(cache(f))`, a keyword `axis` through `cache`, an extra
+keyword of a `**kw` function through `try_back` -/
+example :
+    let s : Sig := { params := ["a", "axis"], defaults := [.cell (.int 0)], varargs := none, varkw := some "kw" }
+    evalChain s recBody [(.tryValue, []), (.cache, [])] { args := [.cell (.str "~arr:1,2")], kw := [("axis", .cell (.int 5)), ("zz", .cell (.int 1))] } =
+      applyFn s recBody { args := [.cell (.str "~arr:1,2")], kw := [("axis", .cell (.int 5)), ("zz", .cell (.int 1))] } := by
+  decide +kernel
+
+
+/-! ## round h6: wrapping twice with DIFFERENT parameters
+
+In the code every subclass `__init__` passes its complete parameter set to `wrapper.__init__` (`try_value`: `repeat, sleep,
+return_value, value, verbose` - `_decorators.py:229-230`; `loops`: `types`; `pd2np`: `exc`; the others none), so `kw.update(kwargs)`
+overwrites EVERY parameter of the wrapper that is unwrapped / cut out: `try_value(value=1)(try_value(value=2, repeat=3)(f))` has
+`repeat=0`.  The model's `mk` takes an arbitrary `kwargs`; it is faithful to the code for complete parameter dicts (`Covers`: the
+new dict has every key of the old ones - the harness only sends such), and there the outer application wins: -/
+
+/-- **`W_p(D₁(…Dₙ(W_q(f)))) == W_p(D₁(…Dₙ(f)))`** for parameter dicts `p`, `q` of the same decorator with `p` complete
+(`wrap_chain_idem` is the case `p = q`; no hypothesis ties `p` to `q` beyond the key sets) -/
+theorem wrap_twice_params (cls : Cls) (kw1 kw2 : PDict) (hn1 : (kw1.map (·.1)).Nodup) (hn2 : (kw2.map (·.1)).Nodup)
+    (hk : Covers kw2 kw1) (ds : List (Cls × PDict)) (hds : ∀ d ∈ ds, d.1 ≠ cls) (fn : WFn)
+    (h : (classes fn.chain).Nodup) (hp : ∀ p, paramsOf cls fn.chain = some p → Covers kw2 p) :
+    WFn.Eqv (mk cls kw2 (mkMany ds (mk cls kw1 fn))) (mk cls kw2 (mkMany ds fn)) := by
+  have hg := mk_nodup cls kw1 fn h
+  have hY := mkMany_nodup ds _ hg
+  have hZ := mkMany_nodup ds _ h
+  have hgc := mk_chain cls kw1 fn h
+  have hsg : stripAll cls (mk cls kw1 fn).chain = stripAll cls fn.chain := by
+    rw [hgc]
+    simp only [stripAll, List.filter, bne_self_eq_false]
+    exact stripAll_idem cls fn.chain
+  have htail : stripAll cls (mkMany ds (mk cls kw1 fn)).chain = stripAll cls (mkMany ds fn).chain := by
+    rw [stripAll_mkMany_ne cls ds hds _ hg, stripAll_mkMany_ne cls ds hds _ h, hsg]
+    rfl
+  have hpY : paramsOf cls (mkMany ds (mk cls kw1 fn)).chain = some (newParams cls kw1 fn.chain) := by
+    rw [paramsOf_mkMany_ne cls ds hds _ hg, hgc]
+    simp [paramsOf, List.find?]
+  have hpZ : paramsOf cls (mkMany ds fn).chain = paramsOf cls fn.chain := paramsOf_mkMany_ne cls ds hds _ h
+  have hcov : Covers kw2 (newParams cls kw1 fn.chain) := by
+    unfold newParams
+    cases hq : paramsOf cls fn.chain with
+    | none => exact hk
+    | some p => exact covers_update kw2 p kw1 hn1 (hp p hq) hk
+  have hhead : PDict.Eqv (newParams cls kw2 (mkMany ds (mk cls kw1 fn)).chain) (newParams cls kw2 (mkMany ds fn).chain) := by
+    have e1 : newParams cls kw2 (mkMany ds (mk cls kw1 fn)).chain = (newParams cls kw1 fn.chain).update kw2 := by
+      simp only [newParams, hpY]
+    have e2 : PDict.Eqv (newParams cls kw2 (mkMany ds fn).chain) kw2 := by
+      simp only [newParams, hpZ]
+      cases hq : paramsOf cls fn.chain with
+      | none => intro k; rfl
+      | some p => exact update_covered_eqv p kw2 hn2 (hp p hq)
+    rw [e1]
+    intro k
+    exact (update_covered_eqv _ kw2 hn2 hcov k).trans (e2 k).symm
+  refine ⟨?_, ?_, ?_⟩
+  · simp only [mk_base, mkMany_base]
+  · rw [mk_chain cls kw2 _ hY, mk_chain cls kw2 _ hZ, htail]
+    rfl
+  · intro i x y hx hy
+    rw [mk_chain cls kw2 _ hY] at hx
+    rw [mk_chain cls kw2 _ hZ] at hy
+    cases i with
+    | zero =>
+      simp only [List.getElem?_cons_zero, Option.some.injEq] at hx hy
+      subst hx hy
+      exact hhead
+    | succ i =>
+      simp only [List.getElem?_cons_succ] at hx hy
+      rw [htail] at hx
+      rw [hx] at hy
+      cases hy
+      intro k; rfl
+
+/-- … and the parameters the outer application ends up with are exactly its own -/
+theorem wrap_twice_outer_params (cls : Cls) (kw1 kw2 : PDict) (hn1 : (kw1.map (·.1)).Nodup) (hn2 : (kw2.map (·.1)).Nodup)
+    (hk : Covers kw2 kw1) (fn : WFn) (h : (classes fn.chain).Nodup)
+    (hp : ∀ p, paramsOf cls fn.chain = some p → Covers kw2 p) :
+    ∃ p rest, (mk cls kw2 (mk cls kw1 fn)).chain = (cls, p) :: rest ∧ PDict.Eqv p kw2 := by
+  have hg := mk_nodup cls kw1 fn h
+  refine ⟨_, _, mk_chain cls kw2 _ hg, ?_⟩
+  have hgc := mk_chain cls kw1 fn h
+  have : paramsOf cls (mk cls kw1 fn).chain = some (newParams cls kw1 fn.chain) := by
+    rw [hgc]; simp [paramsOf, List.find?]
+  simp only [newParams, this]
+  apply update_covered_eqv _ kw2 hn2
+  cases hq : paramsOf cls fn.chain with
+  | none => exact hk
+  | some p => exact covers_update kw2 p kw1 hn1 (hp p hq) hk
+
+/-- non-vacuity (`try_value(repeat=0, value=1)` over `try_value(repeat=3, value=2)`: `repeat` is reset), and why completeness is
+needed: with a partial dict the model keeps the inner `repeat=3`, which no constructor of the code can do -/
+example :
+    let f : WFn := { chain := [], base := 0 }
+    let q : PDict := [("repeat", .cell (.int 3)), ("value", .cell (.int 2))]
+    let p : PDict := [("repeat", .cell (.int 0)), ("value", .cell (.int 1))]
+    (mk .tryValue p (mk .tryValue q f)).chain = [(.tryValue, p)] ∧
+    (mk .tryValue [("value", .cell (.int 1))] (mk .tryValue q f)).chain = [(.tryValue, [("repeat", .cell (.int 3)), ("value", .cell (.int 1))])] := by
+  decide
+
+
+
+/-! ## round h6: histories through a stack, each exclusion only for the decorator that causes it -/
+
+/-- the hypotheses on one call of a history, relative to the classes `K` of the stack: a valid call of a non-raising `f` -
+undeclared keywords excluded only when `kwargs_support ∈ K`, a keyword `axis` only when `loops ∈ K`, an int ndarray only when
+`pd2np ∈ K` (`ValidFor`) -, hashable for the cache layer -/
+def HistCallFor (K : List Cls) (s : Sig) (body : PDict → Res Val) (unh : Call → Bool) (above : List (Cls × PDict))
+    (c : Call) : Prop :=
+  (∃ v, ValidFor K s body c v) ∧ unh (reach s above c) = false ∧ Call.ok (reach s above c)
+
+/-- the unconditional hypotheses of `stack_cache_history` imply these, for every stack -/
+theorem HistCall.toFor {s body unh above c} (h : HistCall s body unh above c) (K : List Cls) :
+    HistCallFor K s body unh above c :=
+  ⟨h.1.imp fun _ hv => hv.toFor K, h.2⟩
+
+/-- **`stack_cache_history` with the hypotheses of `stack_transparent_sharp`**: the same statement for calls that are valid
+for the classes that ARE in the stack - `try_value(cache(f))` for `f(a, **kw)` called with extra keywords, `cache(f)` with a
+parameter called `axis` passed by keyword, `try_back(cache(f))` on an int ndarray ... (hashable for the cache layer:
+`unh (reach …) = false`).  Implies `stack_cache_history` (`HistCall.toFor`). -/
+theorem stack_cache_history_sharp (s : Sig) (body : PDict → Res Val) (unh : Call → Bool) (p : PDict)
+    (above below : List (Cls × PDict)) (ha : noCache above) (hb : noCache below)
+    (pre : List Call) (c : Call)
+    (hpre : ∀ x ∈ pre, HistCallFor (classes (above ++ (Cls.cache, p) :: below)) s body unh above x)
+    (hc : HistCallFor (classes (above ++ (Cls.cache, p) :: below)) s body unh above c) :
+    let chain := above ++ (Cls.cache, p) :: below
+    let seen := reach s above
+    let r := runH s body unh chain {} pre
+    let r' := runH s body unh chain {} (pre ++ [c])
+    r'.2 = r.2 ++ [r'.2.getLast?.getD (applyFn s body c)] ∧
+    ((∀ x ∈ pre, ¬ sameComb (seen x) (seen c)) →
+      r'.1.evals.length = r.1.evals.length + 1 ∧ r'.2.getLast? = some (applyFn s body c)) ∧
+    ((∃ x ∈ pre, sameComb (seen x) (seen c)) →
+      r'.1.evals.length = r.1.evals.length ∧
+      ∃ pre1 c0 pre2, pre = pre1 ++ c0 :: pre2 ∧ sameComb (seen c0) (seen c) ∧
+        (∀ x ∈ pre1, ¬ sameComb (seen x) (seen c)) ∧ r'.2.getLast? = some (applyFn s body c0)) := by
+  intro chain seen r r'
+  have hKa : Within (classes (above ++ (Cls.cache, p) :: below)) above :=
+    fun w hw => within_classes _ w (by simp [hw])
+  have hKb : Within (classes (above ++ (Cls.cache, p) :: below)) below :=
+    fun w hw => within_classes _ w (by simp [hw])
+  have hv : ∀ x ∈ pre, (∃ v, ValidFor (classes (above ++ (Cls.cache, p) :: below)) s body x v) ∧
+      unh (reach s above x) = false :=
+    fun x hx => ⟨(hpre x hx).1, (hpre x hx).2.1⟩
+  have hv' : ∀ x ∈ pre ++ [c], (∃ v, ValidFor (classes (above ++ (Cls.cache, p) :: below)) s body x v) ∧
+      unh (reach s above x) = false := by
+    intro x hx
+    rcases List.mem_append.1 hx with hx | hx
+    · exact hv x hx
+    · simp only [List.mem_singleton] at hx; subst hx; exact ⟨hc.1, hc.2.1⟩
+  obtain ⟨_, hr2, hr3⟩ := runH_refines_for _ s body unh p above below ha hb hKa hKb pre {} {} rfl hv
+  obtain ⟨_, hr2', hr3'⟩ := runH_refines_for _ s body unh p above below ha hb hKa hKb (pre ++ [c]) {} {} rfl hv'
+  rw [List.map_append, List.map_cons, List.map_nil] at hr2' hr3'
+  simp only [List.length_nil, Nat.add_zero, Nat.zero_add] at hr3 hr3'
+  have hres : ∀ x, (∃ v, ValidFor (classes (above ++ (Cls.cache, p) :: below)) s body x v) →
+      Except.ok (resultOf s body (seen x)) = applyFn s body x := by
+    rintro x ⟨v, h⟩
+    rw [(ValidFor.reach above hKa h).resultOf_eq, h.ok]
+  obtain ⟨h1, h2, h3⟩ := cache_once_per_combination (resultOf s body) (pre.map seen) (seen c)
+    (by intro y hy; obtain ⟨x, hx, rfl⟩ := List.mem_map.1 hy; exact (hpre x hx).2.2) hc.2.2
+  have e2 : r.2 = (runCache (fun c => Except.ok (resultOf s body c)) {} (List.map seen pre)).2 := hr2
+  have e2' : r'.2 = (runCache (fun c => Except.ok (resultOf s body c)) {} (List.map seen pre ++ [seen c])).2 := hr2'
+  have e3 : r.1.evals.length =
+      (runCache (fun c => Except.ok (resultOf s body c)) {} (List.map seen pre)).1.evals.length := hr3
+  have e3' : r'.1.evals.length =
+      (runCache (fun c => Except.ok (resultOf s body c)) {} (List.map seen pre ++ [seen c])).1.evals.length := hr3'
+  refine ⟨?_, fun hno => ?_, fun hex => ?_⟩
+  · rw [e2', e2, ← hres c hc.1]; exact h1
+  · have := h2 (by
+      intro y hy; obtain ⟨x, hx, rfl⟩ := List.mem_map.1 hy; exact hno x hx)
+    rw [e3', e3, e2', ← hres c hc.1]; exact this
+  · obtain ⟨x, hx, hs⟩ := hex
+    obtain ⟨hl, p1, c0', p2, hsplit, hs0, hbefore, hlast⟩ := h3 ⟨seen x, List.mem_map.2 ⟨x, hx, rfl⟩, hs⟩
+    obtain ⟨l1, l2, hpre12, hm1, hm2⟩ := List.map_eq_append_iff.1 hsplit
+    obtain ⟨c0, l2', hl2, hc0, hm2'⟩ := List.map_eq_cons_iff.1 hm2
+    subst hl2 hc0 hm1
+    refine ⟨by rw [e3', e3]; exact hl, l1, c0, l2', hpre12, hs0,
+      fun y hy => hbefore (seen y) (List.mem_map.2 ⟨y, hy, rfl⟩), ?_⟩
+    rw [e2', ← hres c0 ((hpre c0 (by rw [hpre12]; simp)).1)]; exact hlast
+
+/-- non-vacuity: `try_value(cache(f))` for `f(a, axis=0, **kw)` called with the keyword `axis` AND an extra keyword AND an int
+ndarray - outside `HistCall` (all three exclusions), inside `HistCallFor` for this stack -/
+example :
+    let s : Sig := { params := ["a", "axis"], defaults := [.cell (.int 0)], varargs := none, varkw := some "kw" }
+    let c : Call := { args := [.cell (.int 1)], kw := [("axis", .cell (.int 5)), ("zz", .cell (.int 9))] }
+    HistCallFor (classes ([(Cls.tryValue, [])] ++ (Cls.cache, []) :: [])) s recBody (fun _ => false) [(Cls.tryValue, [])] c ∧
+    ¬ (∀ p ∈ c.kw, p.1 ≠ "axis") := by
+  refine ⟨⟨⟨_, ⟨fun h => ?_, fun h => ?_, fun h => ?_, rfl⟩⟩, rfl, ?_⟩, by decide⟩
+  · revert h; decide
+  · revert h; decide
+  · revert h; decide
+  · exact ⟨by decide +kernel, by decide +kernel, by decide +kernel⟩
+
+
+/-! ## round h6: the memo fields tied to the constructor -/
+
+/-- **The wrapper reports f's argument specification — memo fields and constructor in ONE model.**  Start from a plain function
+and apply any sequence of decorator applications (`mk`: unwrapping / cutting out same-class wrappers, whose memo fields vanish
+with them: `keepOf`) and specification requests at any depth (which fill the memo fields they pass): the specification
+reported at the end is the plain function's, every wrapper object of the resulting chain has exactly one memo field, and the
+chain is the one `mkMany` builds from the decorator applications alone (requests never change it).  This ties the memo model
+of `spec_forwarded_memo` (arbitrary `construct keep`) to the constructor `mk`. -/
+theorem spec_forwarded_through_mk (base : Sig) (b : Nat) (ops : List WOp) :
+    let f := ops.foldl (fun f op => op.run base f) { fn := { chain := [], base := b }, memos := [] }
+    specWalk base f.memos = base ∧ f.memos.length = f.fn.chain.length ∧
+    f.fn = mkMany (ops.filterMap WOp.wrapOf) { chain := [], base := b } := by
+  intro f
+  refine ⟨?_, ?_, foldl_fn base ops _⟩
+  all_goals
+    have inv : ∀ (ops : List WOp) (g : WFnM), MemoOk base g.memos → g.memos.length = g.fn.chain.length →
+        (classes g.fn.chain).Nodup →
+        MemoOk base (ops.foldl (fun f op => op.run base f) g).memos ∧
+        (ops.foldl (fun f op => op.run base f) g).memos.length = (ops.foldl (fun f op => op.run base f) g).fn.chain.length := by
+      intro ops
+      induction ops with
+      | nil => intro g h1 h2 _; exact ⟨h1, h2⟩
+      | cons op ops ih =>
+        intro g h1 h2 h3
+        simp only [List.foldl_cons]
+        cases op with
+        | wrap cls kw =>
+          apply ih
+          · exact mkMemos_ok base _ _ h1
+          · simp only [WOp.run, mkMemos, List.length_cons, List.length_map, mk_chain cls kw g.fn h3, keepOf, stripAll]
+            rw [kept_length (fun w => w.1 != cls) g.fn.chain g.memos h2]
+          · exact mk_nodup cls kw g.fn h3
+        | request d =>
+          apply ih
+          · exact fill_below_ok base _ _ (by rw [List.take_append_drop]; exact h1)
+          · simp only [WOp.run, List.length_append, fillMemos_length, List.length_take, List.length_drop]
+            omega
+          · exact h3
+    have := inv ops { fn := { chain := [], base := b }, memos := [] } (by intro s hs; simp at hs) rfl (by simp [classes])
+  · exact specWalk_of_ok base _ this.1
+  · exact this.2
+
+/-- non-vacuity: `cache`, `try_value` on top, request the inner object's specification, re-wrap with `cache` (the inner cache
+object and its filled memo are cut out), request the top -/
+example :
+    let base : Sig := { params := ["a"], defaults := [], varargs := none, varkw := none }
+    let ops := [WOp.wrap .cache [], .wrap .tryValue [], .request 1, .wrap .cache [], .request 0]
+    let f := ops.foldl (fun f op => op.run base f) { fn := { chain := [], base := 0 }, memos := [] }
+    classes f.fn.chain = [.cache, .tryValue] ∧ f.memos.length = 2 ∧ specWalk base f.memos = base := by
+  intro base ops f
+  exact ⟨by decide +kernel, (spec_forwarded_through_mk base 0 ops).2.1.trans (by decide +kernel), (spec_forwarded_through_mk base 0 ops).1⟩
 
 end Pyg.Props.C18
